@@ -354,3 +354,22 @@ def dagsync_cond(name, props, budget=150):
     return Cond(name, mk_dagsync(props), DAGSYNC_PARAMS, pin=3, builds=("C",), budget=budget,
                 family="F-DAGSYNC: synchronous call awaiting a task shared with a pending sibling",
                 encodes=ENC_SCHED)
+
+
+
+# ---------------------------------------------------------------------------------------
+# a batch whose public flush() raises after flushing: the scheduler's after-event must still fire
+
+def mk_flushraise(props):
+    def f(ho, d0, d1, k0, k1, rk, rs, p0, p1, v):
+        ds = [conc(d0, 3), conc(d1, 3)]
+        ks = [conc(k0, 2), conc(k1, 2)]
+        td = fam.tree(ds, ks, [v, v + 1])
+        return check_program(td, props, nkinds=2, prio=[p0, p1], hash_order=conc(ho, 2),
+                             public_flush_raises=(conc(rk, 2), conc(rs, 2)),
+                             sig=("flushraise", tuple(ds), tuple(ks), conc(rk, 2), conc(rs, 2)))
+    return f
+
+
+FLUSHRAISE_PARAMS = [I("ho", 0, 1), I("d0", 0, 2), I("d1", 0, 2), I("k0", 0, 1), I("k1", 0, 1), I("rk", 0, 1),
+                     I("rs", 0, 1), I("p0"), I("p1"), I("v")]
